@@ -18,6 +18,24 @@ def flag_truthy_in(p):
     return [c for c in p.pc if "LABREA.CACHE" in str(c) and str(c).startswith("truthy(")]
 
 
+def cache_flag_term(repo):
+    """the evaluatable read by labrea.cache._cache_disabled (Option LABREA.CACHE.DISABLED with default Option LABREA.CACHE.DISABLE)"""
+    from pyvc.symex import explore
+    from .laws import temp_contract
+    cache = repo.module("cache")
+    fn = cache.functions["_cache_disabled"]
+
+    def run(ex):
+        req = Obj(cache.classes["CacheExistsRequest"], {"options": Sym("opt", O1)}, z3.Const("req", T.Ev))
+        ex.pubstack.append(("<harness>", "<harness>"))      # the flag Option is a temporary used through its class contract
+        return ex.call(PyFunc(fn, cache), [req], {})
+    ps = explore(repo, run, tag="fl", config={"abstract_classes": ("Option",), "temp_contract": temp_contract})
+    for p in ps:
+        if p.kind == "ok" and isinstance(p.value, Sym) and p.value.kind == "val":
+            return p.value.term      # EVval(<flag evaluatable>, o)
+    return None
+
+
 def build(repo, faulty=False, label="L7"):
     ci = repo.module("cache").classes["Cached"]
     R = Runs(repo, ci, {"cache_reliable_exists": not faulty})
@@ -51,6 +69,16 @@ def build(repo, faulty=False, label="L7"):
         # C16(b): when the LABREA.CACHE.* switch is truthy no backend call is made and the inner evaluatable is evaluated
         if flag_truthy_in(p):
             syn.append({"name": f"Cached:{label}:disabled-by-option-touches-no-backend#{i}", "ok": not backend and (len(inner_calls) == 1), "detail": str(backend[:1]), "group": g})
+    # C16(b)/C10: with the cache switched off by option NO path of evaluate/validate may reach the backend
+    flagval = cache_flag_term(repo)
+    if flagval is not None and not faulty:
+        for meth in ("evaluate", "validate"):
+            for i, p in enumerate(R.paths(meth, 1)):
+                if p.kind == "unsupported":
+                    continue
+                if any(e[0] == "cache" for e in flat_events(p.trace)):
+                    vcs.append(VC(f"Cached:{label}:no-backend-call-when-switched-off:{meth}#{i}", hyp + p.pc + p.defs + [T.truthy(flagval)], z3.BoolVal(False),
+                                  {"law": label, "cls": "Cached"}))
     # validate: skips validation only on an existing entry (C10)
     pv = R.paths("validate", 1)
     if not unsupported(pv):
